@@ -265,6 +265,17 @@ func (pg *peerGater) decayStats() {
 			delete(pg.ipStats, ip)
 		}
 	}
+
+	// A verdict can create the entry of a peer that has no stream left (its message
+	// was still in the validation pipeline); no stream event will remove that entry,
+	// so drop it here once the peer is gone.
+	if pg.host != nil {
+		for p := range pg.peerStats {
+			if pg.peerConns[p] == 0 && pg.host.Network().Connectedness(p) != network.Connected {
+				delete(pg.peerStats, p)
+			}
+		}
+	}
 }
 
 func (pg *peerGater) getPeerStats(p peer.ID) *peerGaterStats {
